@@ -9,6 +9,7 @@ PROPS = {
     "C01": dict(
         title="FFT64 negacyclic product is exact within the documented precision budget",
         module="SpqProofs.Properties.C01",
+        extra_modules=["SpqProofs.Properties.Closed"],
         streams=dict(quick=[("md_model", "plain"), ("md_prod", "plain"), ("md_prog", "plain")],
                      thorough=[("md_model", "plain"), ("md_prod", "plain"), ("md_prog", "plain")]),
         proved="exact-arithmetic part (product_exact_arith, rows_zero) on the module-level model instantiated with a commutative ring: "
@@ -18,7 +19,7 @@ PROPS = {
                "svp_exact / rows_zero (svp_prepare + svp_apply_dft + vec_znx_idft: limb i < min(rsz, asz) = pol * vec_i, all other output limbs exactly zero, "
                "all limb counts incl. 0, all strides) under the explicit hypotheses H1-H4 on the abstract conversion/FFT pieces (ExactDft) and the dispatch "
                "invariants (ExactArith: FMA pointwise kernels only when 4 | m); hypotheses shown satisfiable (Gaussian integers, nn = 2)",
-        not_proved="H1-H4 are hypotheses here: H2/H3 (fft = evaluation at points z_j with z_j^m = i, ifft o fft = m) are C06's theorems, H1/H4 (exact "
+        not_proved="[update: Properties/Closed.lean discharges H1-H4 for the real FFT network in exact arithmetic (exactParts over any characteristic-0 ring with a primitive 4m-th root of unity, e.g. R with zeta = exp(i pi/2m)); what remains unproved is only the binary64 rounding budget] H1-H4 are hypotheses in Properties/C01.lean: H2/H3 (fft = evaluation at points z_j with z_j^m = i, ifft o fft = m) are C06's theorems, H1/H4 (exact "
                    "conversion, exact division + rounding) are C14's; the floating-point budget (product_budget: error <= E = 8 log2(N) 2^-53 (...)) and hence "
                    "'result = exact product whenever E < 1/2' for binary64 are not proved (depends on C06 fft_err) - tied by the md_prod oracle "
                    "(__int128 schoolbook, E + 1/2 test) and the bit-exact md_model stream",
@@ -32,6 +33,7 @@ PROPS = {
     "C02": dict(
         title="Vector-matrix product (VMP) equals the naive polynomial product for all shapes",
         module="SpqProofs.Properties.C02",
+        extra_modules=["SpqProofs.Properties.Closed"],
         streams=dict(quick=[("md_model", "plain"), ("md_vmp", "plain"), ("md_prog", "plain")],
                      thorough=[("md_model", "plain"), ("md_vmp", "plain"), ("md_prog", "plain")]),
         proved="vmp_layout (layout_inverse): for ANY fft/fromZnx, in exact arithmetic, vmp_apply_dft_to_dft(vmp_prepare(M)) column j < min(ncols, rsz), "
@@ -40,7 +42,7 @@ PROPS = {
                "mul/addmul ref and fma, every nrows, ncols, asz, rsz >= 0; vmp_exact: under H1-H4 the inverse DFT of vmp_apply_dft is column j = "
                "sum_i a_i * M[i][j] in Z[X]/(X^nn+1), other limbs zero; vmp_apply_dft_eq: vmp_apply_dft = vmp_apply_dft_to_dft o vec_znx_dft as arrays for "
                "any carrier (binary64 included) and any prepared matrix (apply reads only min(nrows, asz) rows)",
-        not_proved="numeric part as C01: H1-H4 are hypotheses (C06/C14), the summed rounding budget over the rows is tied only by the md_vmp oracle "
+        not_proved="[update: vmp_closed in Properties/Closed.lean removes H1-H4 for the real network in exact arithmetic] numeric part as C01: the summed rounding budget over the rows is tied only by the md_vmp oracle "
                    "(integer matrix-vector product on small operands); scratch-space split of vmp_apply_dft (tmp_space offsets) is not modelled at heap level "
                    "(C11 sanitizer stream)",
         level_text="Lean 4 theorems: address arithmetic of prepare/apply for every shape and both layouts (unconditional in exact arithmetic), exact product "
@@ -175,7 +177,7 @@ PROPS = {
     ),
     "C14": dict(
         title="Numeric layout conversions are exact or correctly rounded on their whole domain",
-        level_text="Lean 4 theorems on the bit-exact soft-float model (verified pack/decode theory: RNE, exactness, magic-constant additions, rint, quotient by 2^j) for every conversion and variant, all m; one genuine defect at x = +-pred(d/2) of the wide double->int64 variant is a recorded finding (D7); bit-exact correspondence at and around every domain boundary",
+        level_text="Lean 4 theorems on the bit-exact soft-float model (verified pack/decode theory: RNE, exactness, magic-constant additions, rint, quotient by 2^j) for every conversion and variant, all m, including the repaired wide double->int64 kernel (D7) on |x/d| < 2^52 and its exactness up to 2^63; bit-exact correspondence at and around every domain boundary",
         design_ref="DESIGN.md §5 C14",
         module="SpqProofs.Properties.C14",
         variants={"plain": None},
@@ -209,10 +211,11 @@ PROPS = {
     "C16": dict(
         title="Pipelines of API calls compute the corresponding expression in Z[X]/(X^N+1)",
         module="SpqProofs.Properties.C16",
+        extra_modules=["SpqProofs.Properties.Closed"],
         streams=dict(quick=[("md_prog", "plain"), ("vz_box", "plain")],
                      thorough=[("md_prog", "plain"), ("vz_box", "plain")]),
         proved="coefficient-space fragment, complete: for every layout (N = 2^t, strides >= N, pairwise disjoint variables inside one int64 heap), every straight-line program of add/sub/negate/copy/rotate/automorphism/normalize calls (any length, destination equal to a source or not, any limb counts incl. 0) and every input, if the exact interpreter stays in budget (every stored coefficient fits int64; |normalize input| <= 2^62, k in [1,62]; odd automorphism index) then the heap after running the model of vec_znx.c holds, limb by limb, the exact expression in Z[X]/(X^N+1) (pointwise +-, X^p*a, a(X^p) = sum a_i X^(ip), balanced base-2^k digits), all other cells (padding, other variables) are unchanged and no access was out of bounds (coeff_prog_refines, coeff_prog_output; per-call *_sim derived from the C08/C09/C05 specs). Mixed programs (dft, svp_prepare/apply, vmp_prepare/apply, idft, small product on a second store of opaque objects): prog_refines_partial proves the refinement for every module and every program relative to the record DftOpsSound of per-function exactness facts (dft_exact, svp_exact, vmp_exact, dft_idft_exact, small_product_exact = the C01/C02 theorems) - heap reads with strides, stores, frames, interplay with coefficient-space calls and validity of opaque objects as inputs of later calls are proved; DftOpsSound is shown inhabited (identity-transform module)",
-        not_proved="DftOpsSound is not yet instantiated for the library's FFT64 module (exact-arithmetic instance = C01/C02 exact parts; binary64 instance additionally needs the C06.4/C01 error budget): the DFT-space part of the statement is therefore relative to those hypotheses (theorem named prog_refines_partial). NTT120 big-coefficient programs (int128 limbs) are covered by the md_prog stream only. The closed coefficient formulas are the textbook ones for Z[X]/(X^N+1); no bridge to Mathlib's AdjoinRoot",
+        not_proved="[update: dftOpsSound_network / prog_refines_closed in Properties/Closed.lean instantiate DftOpsSound for the real FFT network in exact arithmetic, so mixed programs refine exact integer semantics with no remaining hypothesis other than the binary64 rounding budget] DftOpsSound was not instantiated in Properties/C16.lean itself (exact-arithmetic instance = C01/C02 exact parts; binary64 instance additionally needs the C06.4/C01 error budget): the DFT-space part of the statement is therefore relative to those hypotheses (theorem named prog_refines_partial). NTT120 big-coefficient programs (int128 limbs) are covered by the md_prog stream only. The closed coefficient formulas are the textbook ones for Z[X]/(X^N+1); no bridge to Mathlib's AdjoinRoot",
         level_text="Lean 4 refinement theorem (simulation by induction on the program) for the whole coefficient-space fragment over the heap model of vec_znx.c; DFT-space extension proved relative to an explicit record of per-function exactness hypotheses; random well-typed programs over the real library (both dispatch masks, aliasing, shapes) checked against an independent 128-bit exact interpreter",
         design_ref="DESIGN.md §5 C16",
         technique="Lean 4 proof (generic simulation theorem + per-call lemmas from C08/C09/C05 specifications) + differential program-level correspondence",
